@@ -257,6 +257,7 @@ def main(tier, replay):
         env_matrix(ctx, vh, tmp, tier)
         t2 = time.time()
         addresses(ctx, vh, tier)
+        addresses(ctx, vh, tier, activated=True, tmp=tmp)
         ctx.extra["phase_seconds"] = {"transports": round(t1 - ctx.t0, 1), "env_matrix": round(t2 - t1, 1), "addresses": round(time.time() - t2, 1)}
         return ctx.finish(60 if tier == "quick" else 1000)
     finally:
@@ -389,9 +390,31 @@ def env_matrix(ctx, vh, tmp, tier):
                 pass
 
 
-def addresses(ctx, vh, tier):
+def addresses(ctx, vh, tier, activated=False, tmp=None):
     n = 2000 if tier == "quick" else 200000
-    p = subprocess.run([vh, "c16addr", str(ctx.seed), str(n)], stdout=subprocess.PIPE, stderr=subprocess.PIPE, env=vlib.base_env(), timeout=600)
+    if not activated:
+        p = subprocess.run([vh, "c16addr", str(ctx.seed), str(n)], stdout=subprocess.PIPE, stderr=subprocess.PIPE, env=vlib.base_env(), timeout=600)
+    else:
+        # the same address strings handed to a process that IS socket-activated (descriptor 3 is a
+        # listening socket, LISTEN_FDS=1, LISTEN_PID names it): an unsupported scheme is still
+        # an invalid address, activation or not
+        n = min(n, 400)
+        path = os.path.join(tmp, "act-addr")
+        ls = socket.socket(socket.AF_UNIX, socket.SOCK_STREAM)
+        ls.bind(path)
+        ls.listen(8)
+        fd = ls.fileno()
+
+        def pre(fd=fd):
+            h = os.dup(fd)
+            os.dup2(h, 3)
+            os.set_inheritable(3, True)
+
+        e = vlib.base_env()
+        for k in ("LISTEN_FDS", "LISTEN_PID", "LISTEN_FDNAMES"):
+            e.pop(k, None)
+        p = subprocess.run(["sh", "-c", "LISTEN_FDS=1 LISTEN_PID=$$ exec %s c16addr %d %d" % (vh, ctx.seed, n)], stdout=subprocess.PIPE, stderr=subprocess.PIPE, env=e, preexec_fn=pre, close_fds=False, timeout=600)
+        ls.close()
     rows = None
     for line in p.stdout.decode("utf-8", "replace").splitlines():
         if line.startswith("C16ADDR "):
@@ -401,12 +424,13 @@ def addresses(ctx, vh, tier):
         return
     seen = set()
     for r in rows:
-        ctx.case(("address", r["address"]))
+        ctx.case(("address", r["address"], activated))
         for k in ("varlink_connect", "with_address", "listener_new"):
             if r[k] != "InvalidAddress":
-                sig = "c16:unsupported-scheme-not-rejected:%s" % k
+                sig = "c16:unsupported-scheme-not-rejected:%s%s" % (k, ":under-activation" if activated else "")
                 if sig not in seen or len(seen) < 5:
                     ctx.violation(sig, {"engine": "c16", "address": r["address"], "result": r})
                 seen.add(sig)
-    ctx.count("address_strings_checked", len(rows))
-    ctx.sample({"address_strings": [r["address"] for r in rows[:12]]})
+    ctx.count("address_strings_checked_under_activation" if activated else "address_strings_checked", len(rows))
+    if not activated:
+        ctx.sample({"address_strings": [r["address"] for r in rows[:12]]})
